@@ -32,6 +32,8 @@ var ops = []opDef{
 	{"<", "(OCmp CLt)", 2, 3, false, false}, {"<=", "(OCmp CLe)", 2, 3, false, false},
 	{">", "(OCmp CGt)", 2, 3, false, false}, {">=", "(OCmp CGe)", 2, 3, false, false},
 	{"=", "(OCmp CEq)", 2, 3, false, false},
+	{"logand", "(OBit BAnd)", 0, 4, true, false}, {"logior", "(OBit BOr)", 0, 4, true, false},
+	{"logxor", "(OBit BXor)", 0, 4, true, false}, {"lognot", "OLognot", 1, 1, true, false},
 }
 
 func gVal(o slip.Object) (string, string) {
@@ -162,7 +164,31 @@ func Run(ctx *common.Ctx) {
 	var terms []string
 	var descs []any
 	distinct := map[string]bool{}
-	vars := []string{"va", "vb", "vc"}
+	vars := []string{"va", "vb", "vc", "vd"}
+	// operands for the bitwise operators: fixnums of both signs (bit 63 set or clear) and bignums of both
+	// signs in every order, so that a negative fixnum precedes / follows the first bignum
+	bitOperand := func() *big.Rat {
+		z := new(big.Int)
+		switch ctx.Rng.Intn(8) {
+		case 0:
+			z.SetInt64(-1 - int64(ctx.Rng.Intn(16)))
+		case 1:
+			z.SetInt64(int64(ctx.Rng.Intn(16)))
+		case 2:
+			z.SetInt64(int64(ctx.Rng.Next()))
+		case 3:
+			z.Set(common.Pick(ctx.Rng, grid))
+		case 4:
+			z.Lsh(big.NewInt(1), uint(64+ctx.Rng.Intn(70)))
+			if ctx.Rng.Bool() {
+				z.Neg(z)
+			}
+			z.Add(z, big.NewInt(int64(ctx.Rng.Intn(9))-4))
+		default:
+			z.Set(randInt())
+		}
+		return new(big.Rat).SetInt(z)
+	}
 	for len(terms) < ncases {
 		op := common.Pick(ctx.Rng, ops)
 		n := op.minA + ctx.Rng.Intn(op.maxA-op.minA+1)
@@ -172,6 +198,14 @@ func Run(ctx *common.Ctx) {
 			base = small()
 		}
 		rel := ctx.Rng.Chance(55)
+		bitw := strings.HasPrefix(op.lisp, "log")
+		if bitw && ctx.Rng.Chance(60) {
+			rel = false
+			base = bitOperand()
+			ctx.Hist("operands:bitwise-mix")
+		} else {
+			bitw = false
+		}
 		if rel {
 			ctx.Hist("operands:related")
 		}
@@ -179,6 +213,8 @@ func Run(ctx *common.Ctx) {
 			switch {
 			case i == 0:
 				exprs = append(exprs, show(base))
+			case bitw:
+				exprs = append(exprs, show(bitOperand()))
 			case rel:
 				// derive from the first operand; for divisions the roles are also swapped
 				exprs = append(exprs, show(related(base, op.ints)))
@@ -193,8 +229,10 @@ func Run(ctx *common.Ctx) {
 		for i, e := range exprs {
 			fmt.Fprintf(&sb, "(setq %s %s) ", vars[i], e)
 		}
-		if o := common.EvalIn(scope, sb.String()); o.Err != "" {
-			panic("operand: " + sb.String() + ": " + o.Msg)
+		if n > 0 {
+			if o := common.EvalIn(scope, sb.String()); o.Err != "" {
+				panic("operand: " + sb.String() + ": " + o.Msg)
+			}
 		}
 		var gargs, dargs []string
 		for i := 0; i < n; i++ {
@@ -260,9 +298,9 @@ func Run(ctx *common.Ctx) {
 		}
 	}
 	ctx.Meta.DistinctNontrivial = len(distinct)
-	ctx.Meta.Rule = "operator from {+ - * / floor ceiling truncate round mod rem abs 1+ 1- gcd lcm < <= > >= =} x 1..3 operands drawn from the boundary grid {0,+-1,+-2,+-3,+-7,+-10,+-2^e,+-(2^e-1),+-(2^e+1) for e in 31,32,62,63,64} (40%), small integers, random 64-bit and random <=200-bit integers, ratios of those (30% for operators that take them), bignum objects holding small values, and in 55% of the cases operands derived from the first one (equal, negated, +-1, small multiples and exact quotients, multiple plus small remainder, exact half-way points, the integers around a ratio, +1/2); distinct = distinct (operator, operand representations) tuples, all non-trivial"
+	ctx.Meta.Rule = "operator from {+ - * / floor ceiling truncate round mod rem abs 1+ 1- gcd lcm < <= > >= = logand logior logxor lognot} x 1..3 operands (0..4 for logand logior logxor, 60% of them drawn from a mix of small fixnums of both signs, random 64-bit fixnums, the grid, +-2^k+-j for k in 64..133, and the general integers, each position independently, so negative fixnums occur before and after the first bignum) drawn from the boundary grid {0,+-1,+-2,+-3,+-7,+-10,+-2^e,+-(2^e-1),+-(2^e+1) for e in 31,32,62,63,64} (40%), small integers, random 64-bit and random <=200-bit integers, ratios of those (30% for operators that take them), bignum objects holding small values, and in 55% of the cases operands derived from the first one (equal, negated, +-1, small multiples and exact quotients, multiple plus small remainder, exact half-way points, the integers around a ratio, +1/2); distinct = distinct (operator, operand representations) tuples, all non-trivial"
 	header := "From C05 Require Import Model Spec Corr.\nOpen Scope Z_scope.\n"
-	footer := "Definition res := Eval vm_compute in check_all cases.\nPrint res.\nDefinition gcount := Eval vm_compute in guard_count cases.\nPrint gcount.\n"
+	footer := "Definition res := Eval vm_compute in check_all cases.\nPrint res.\nDefinition gcount := Eval vm_compute in guard_count cases.\nPrint gcount.\nDefinition vcount := Eval vm_compute in value_guard_count cases.\nPrint vcount.\n"
 	ctx.WriteShards("cases", header, "case", footer, terms, descs, 16)
 	ctx.ReplayKnownLisp()
 }
